@@ -183,7 +183,10 @@ def setup():
     checks = load_checks()
     flavors = set()
     drivers = set()
-    for spec in checks.values():
+    from .checks import REVIEWED
+    for pid, spec in checks.items():
+        if pid not in REVIEWED:
+            continue
         for tier in spec["runs"]:
             for r in spec["runs"][tier]:
                 if "driver" in r:
